@@ -244,9 +244,6 @@ func (g *richGen) stmt() {
 	case 15: // global state mutation (E-ISO)
 		g.feat["mutate"] = true
 		sub := g.t.Choose(12)
-		if sub == 6 && !g.t.Chance(1, 4) {
-			sub = 0 // the collectgarbage mutation hits an open finding: keep it rare
-		}
 		switch sub {
 		case 6:
 			g.ln(`collectgarbage("stop"); probe(0); emit("gcstopped%d", collectgarbage("isrunning")); collectgarbage("restart"); probe(0); emit("gcrestarted%d", collectgarbage("isrunning"))`, n, n)
